@@ -53,6 +53,7 @@ ASSUMPTIONS = [
     "reprocess together with show_base is refused by the code (CantReprocessAndShowBase from inside the merge): the oracle then only requires that the tree is left exactly as it was (texts, no helpers, no conflict records); when no file needs a text merge the combination is accepted and judged like any other run",
     "only Merge3Merger: WeaveMerger / LCAMerger do not take base/this/other texts (their reference would be the weave plan) and are exercised by C17",
     "mode nobase (merge -r 1..-1 of files added in r2): the reference merges against an empty BASE and no .BASE helper is expected; before resolve the user may have deleted helper files (never the one the action renames into place): afterwards still no helper and no record may be left",
+    "fault mode (20% of the runs): one file-system call of the merge's TreeTransform.apply() raises OSError (simkit.osseam, armed at the start of apply by xformsim.ApplyWatch); afterwards only 'a recorded text conflict is backed by the marker text and all helper files' is asserted - what a failed apply leaves on disk is C13's property",
     "resolve is called with action take_this / take_other only (what the property names); 'done' and 'auto' are not judged",
     "runs execute in-process (ISOLATION=thread): each run builds both branches, trees and the Sim from scratch",
 ]
@@ -71,6 +72,9 @@ MODES = ["found", "found", "found", "explicit", "cherrypick", "cherrypick", "rev
 
 
 def warm():
+    from . import xformsim
+
+    xformsim.install()  # os seam of the transform modules + apply hook (idempotent; inert unless a run activates it)
     if not M.base_warm():
         return
     plans = [
@@ -180,7 +184,11 @@ def _generate(rng):
         res = {"action": rng.choice(["take_this", "take_other"]), "paths": paths}
         if rng.random() < 0.3:
             res["rm_helpers"] = sorted(rng.sample([".BASE", ".THIS", ".OTHER"], rng.randint(1, 2)))
-    return {"dir": rng.choice(["", "", "d"]), "mode": mode, "reprocess": reprocess, "show_base": show_base, "commit_this": rng.random() < 0.5, "files": files, "resolve": res}
+    plan = {"dir": rng.choice(["", "", "d"]), "mode": mode, "reprocess": reprocess, "show_base": show_base, "commit_this": rng.random() < 0.5, "files": files, "resolve": res}
+    if rng.random() < 0.2:
+        # one file-system call of the merge's apply() fails
+        plan["fault"] = {"at": rng.randint(1, 12), "errno": rng.choice(["EACCES", "ENOSPC", "EIO"])}
+    return plan
 
 
 def shrink_candidates(plan):
@@ -322,12 +330,56 @@ def execute(sim, plan):
     # -- the merge
     info = {}
     raised = None
+    watch = None
+    failed_apply = None
+    if plan.get("fault") and not both:
+        from simkit import osseam
+
+        from . import xformsim
+
+        osseam.activate(sim, {"": root})
+        watch = xformsim.ApplyWatch(sim, fault_at=plan["fault"]["at"], errno_name=plan["fault"]["errno"])
     try:
         M.do_merge(tree, b"other", other.branch, "merge3", base_rev=base_rev, reprocess=reprocess, show_base=show_base, info=info)
     except CantReprocessAndShowBase as e:
         raised = e
     except errors.BzrError as e:
-        fail("merge_raised", [mode, type(e).__name__], "merge raised %r" % (e,))
+        if watch is not None and sim.faults_fired:
+            failed_apply = e
+        else:
+            fail("merge_raised", [mode, type(e).__name__], "merge raised %r" % (e,))
+    except OSError as e:
+        if watch is None or not sim.faults_fired:
+            raise
+        failed_apply = e
+    finally:
+        if watch is not None:
+            from simkit import osseam
+
+            watch.close()
+            osseam.deactivate(sim)
+            sim.disarm()
+    if watch is not None and sim.faults_fired:
+        # a file-system call of apply() failed.  What the rollback leaves on disk is C13's
+        # property; here: whatever conflict record exists must be backed by markers + helpers
+        sim.probe("apply_fault_fired")
+        sim.event("merge", mode, "apply-fault", plan["fault"]["at"], type(failed_apply).__name__ if failed_apply else "swallowed")
+        tree = T.reopen(tree)
+        disk = T.disk_snapshot(root, "bzr")
+        for r in M.conflict_tuples(tree):
+            names = [f["name"] for f in files if rel[f["name"]] == r[1]]
+            ok = False
+            if r[0] == "text conflict" and names:
+                e = enc[names[0]]
+                text, conflict = M.ref_merge3(e["base"], e["this"], e["other"], cherrypick=cherry, reprocess=reprocess, show_base=show_base)
+                want = {"": text, ".THIS": e["this"], ".OTHER": e["other"]}
+                if mode != "nobase":
+                    want[".BASE"] = e["base"]
+                ok = conflict and all(disk.get(r[1] + sfx) == (T.FILE, data, False) for sfx, data in want.items())
+            if not ok:
+                fail("record_without_markers", ["apply_fault"], "apply() failed at file-system call %d (%s): the tree has the record %r but %r does not hold the conflict text with its helpers (files: %r)" % (plan["fault"]["at"], plan["fault"]["errno"], r, r[1], sorted(disk)))
+        sim.nontrivial = bool(need_merge)
+        return
     if info.get("cherrypick") is not None and bool(info["cherrypick"]) != cherry:
         raise AssertionError("harness: cherrypick flag %r in mode %s" % (info, mode))
     sim.event("merge", mode, reprocess, show_base, plan["commit_this"], "raised" if raised else "ok")
